@@ -5,6 +5,7 @@ import Srctools.Gen.Dmx
 import Srctools.Model.C14Kv2
 import Srctools.Proofs.C14Kv2Main
 import Srctools.Proofs.C14Kv2Order
+import Srctools.Proofs.C14Kv2Iso
 import Srctools.Props.C02
 /-!
 # C14 — DMX export/parse preserves the element graph (binary and KeyValues2), KV1 bridge
@@ -312,6 +313,55 @@ theorem C14_kv2_nested (E : Tok.Tables) (T : Tables) (hE : Tok.escOK E = true) (
   obtain ⟨hnest, hperm⟩ := C14_kv2_order_perm T _ g hwf hb
   obtain ⟨ns, h1, h2, h3⟩ := C14_kv2 E T hE hL hN hP cfold hf g false cull hne hwf hu hnest
   exact ⟨ns, h1, h2, h3, hperm⟩
+
+/-- The numbering traversal is generic in the payload: for a heap graph with *text* values it
+gives the same guarantees (`NumberingOn`: one dense index per reachable element, root first, nothing
+unreachable, and every element but the first is referenced from a smaller index), the written
+graph `tindexed` is isomorphic to the heap graph, and it is canonically numbered. -/
+theorem C14_iso_text (h : Kv2.TGraph) (hc : Kv2.theapClosed h = true) (root : Nat)
+    (hr : root < h.elems.length) :
+    NumberingOn (Kv2.refsAtT h) root (Kv2.tnumber h root) ∧ Kv2.TIso h root (Kv2.tindexed h root) ∧
+    Kv2.bfsOrdered (Kv2.tindexed h root) = true :=
+  ⟨Kv2.tnumber_numbering h hc root hr, Kv2.tindexed_iso h hc root hr, Kv2.tindexed_bfsOrdered h hc root hr⟩
+
+/-- **Export → parse (KeyValues2), from the heap graph** (`C14_kv2 ∘ C14_iso`), nested or flat
+layout, with or without `cull_uuid`: numbering the heap graph, writing it as text and parsing the
+text gives nodes that are in bijection with the reachable elements (`order` is a permutation of the
+indices of the numbered graph, which is isomorphic to the heap graph), node `k` copying element
+`order[k]`, references leading to the copies of their targets.  The hypotheses on the numbered
+graph are about *values and names* only (`graphWf`, `uuidsOK`); everything structural — which
+elements are written, where, how often, and that the nesting terminates — is derived. -/
+theorem C14_export_parse_iso_kv2 (E : Tok.Tables) (T : Tables) (hE : Tok.escOK E = true)
+    (hL : Kv2.lexOK E = true) (hN : Kv2.namesOK T = true) (hP : Kv2.plainOK E T = true)
+    (cfold : Char → List Char) (hf : ∀ c ∈ Kv2.nameChars T, cfold c = [c])
+    (h : Kv2.TGraph) (hc : Kv2.theapClosed h = true) (root : Nat) (hr : root < h.elems.length)
+    (flat cull : Bool)
+    (hwf : Kv2.graphWf T (fun s => s.flatMap cfold) (Kv2.tindexed h root) flat = true)
+    (hu : Kv2.uuidsOK (Kv2.tindexed h root) = true) :
+    Kv2.TIso h root (Kv2.tindexed h root) ∧
+    ∃ ns, Kv2.parse E T cfold (Kv2.emit E T flat cull (Kv2.tindexed h root)) = .ok ns ∧
+      List.Forall₂ (Kv2.NodeRel (Kv2.tindexed h root) flat cull (Kv2.ValRel (Kv2.order (Kv2.tindexed h root) flat)))
+        (Kv2.order (Kv2.tindexed h root) flat) ns ∧
+      (Kv2.order (Kv2.tindexed h root) flat).head? = some 0 ∧
+      (Kv2.order (Kv2.tindexed h root) flat).Perm (List.range (Kv2.tindexed h root).elems.length) := by
+  obtain ⟨hnum, hiso, hbfs⟩ := C14_iso_text h hc root hr
+  refine ⟨hiso, ?_⟩
+  have hne : (Kv2.tindexed h root).elems ≠ [] := by
+    intro he
+    have hl := Kv2.tindexed_length h hc root hr
+    rw [he] at hl
+    have : Kv2.tnumber h root = [] := List.length_eq_zero_iff.mp hl.symm
+    have hh := hnum.head
+    rw [this] at hh; cases hh
+  cases flat with
+  | false =>
+    exact C14_kv2_nested E T hE hL hN hP cfold hf _ cull hne hwf hu hbfs
+  | true =>
+    have hnest : Kv2.nestAllOK (Kv2.tindexed h root) true = true := by
+      simp only [Kv2.nestAllOK, List.all_eq_true, Kv2.roots_flat, List.mem_range]
+      exact fun i hi => Kv2.nestOK_flat _ _ i hi
+    obtain ⟨ns, h1, h2, h3⟩ := C14_kv2 E T hE hL hN hP cfold hf _ true cull hne hwf hu hnest
+    exact ⟨ns, h1, h2, h3, by rw [Kv2.order_flat]⟩
 
 /-- … at the tables of the current source, for any case folding that is the identity on the
 characters of the type names (`str.casefold` on lower-case ASCII letters, digits and `_`). -/
